@@ -216,13 +216,17 @@ def round_loop(f):
             if not all(v == first or _is_cast_of(f, v, first) for v in init):
                 continue
             # compared with 12 somewhere in the loop (possibly through casts)
-            names = {p.id}
+            # (a do/while form compares the advanced value: `while (++round < 12)`)
+            names = {p.id, latch[0]}
             for i in f.insts():
-                if i.block.name in blocks and i.op in ("zext", "sext", "trunc") and i.ops[0] in names:
+                if i.block.name in blocks and i.op in ("zext", "sext", "trunc") and isinstance(i.ops[0], str) and i.ops[0] in names:
                     names.add(i.id)
+
+            def _is(v):
+                return isinstance(v, str) and v in names
             cmp12 = any(i.op == "icmp" and i.block.name in blocks and
-                        ((i.ops[0] in names and ir.const_int(i.ops[1]) in (12, 11)) or
-                         (i.ops[1] in names and ir.const_int(i.ops[0]) in (12, 11))) for i in f.insts())
+                        ((_is(i.ops[0]) and ir.const_int(i.ops[1]) in (12, 11)) or
+                         (_is(i.ops[1]) and ir.const_int(i.ops[0]) in (12, 11))) for i in f.insts())
             if cmp12:
                 return p, latch[0], lp
     return None
